@@ -505,9 +505,12 @@ class BackendZ3(Backend):
 
     @condom
     def StringV(self, ast):
+        return self._string_literal(ast.args[0])
+
+    def _string_literal(self, value: str):
         # build the literal from code points: z3.StringVal would re-interpret escape sequences such as \\u{48}
         # that the caller wrote as plain characters
-        chars = [ord(c) for c in ast.args[0]]
+        chars = [ord(c) for c in value]
         return z3.SeqRef(
             z3.Z3_mk_u32string(self._context.ref(), len(chars), (ctypes.c_uint * len(chars))(*chars)), self._context
         )
@@ -951,11 +954,15 @@ class BackendZ3(Backend):
 
             # Construct the extra constraint so we don't get the same result anymore
             if i + 1 != n:
+                # a str value must become a literal of exactly these characters (z3 would parse escapes in it)
+                r_z3 = [self._string_literal(v) if isinstance(v, str) else v for v in r]
                 if len(exprs) == 1:
-                    solver.add(exprs[0] != r[0])
+                    solver.add(exprs[0] != r_z3[0])
                 else:
                     solver.add(
-                        self._op_raw_Not(self._op_raw_And(*[(ex == ex_v) for ex, ex_v in zip(exprs, r, strict=False)]))
+                        self._op_raw_Not(
+                            self._op_raw_And(*[(ex == ex_v) for ex, ex_v in zip(exprs, r_z3, strict=False)])
+                        )
                     )
                 model = None
 
